@@ -42,15 +42,15 @@ CHECKS = {
                 note="Level 'other': the vendor-specific raw register sequences are not judged, external Model impls are their own obligation. Trusted: rustc MIR, interpreter, C14, C18, opcode table, spec/interface_support.json baseline."),
     "C12": dict(level="fault_enumeration", design="5/C12",
                 technique="error-flow analysis over MIR: every fallible hardware/interface event forks into Ok/Err edges; path rules (no event after an Err edge, error value returned in the variant of its source, result never ignored, no panic) checked on all paths of all functions with fallible operations",
-                text="Enumerates, on the control-flow graph rather than over runs, every path on which the k-th pin/SPI/bus/interface operation fails - for all k, both transports, every model init and every Display method - and checks that the call returns exactly that error wrapped in the variant naming its source (dc/spi, bus/dc/wr, rst/di), performs no further hardware operation, cannot panic, and that no path drops the result of a fallible operation; the sleeping flag and options are unchanged on error paths.",
+                text="Enumerates, on the control-flow graph rather than over runs, every path on which the k-th pin/SPI/bus/interface operation fails - for all k, both transports, every model init and every Display method - and checks that the call returns exactly that error wrapped in the variant naming its source (dc/spi, bus/dc/wr, rst/di), performs no further hardware operation, cannot panic, and that no path drops the result of a fallible operation; the sleeping flag and options are unchanged on error paths (an error path is an explicit Err or the Result of the last fallible call handed back as it is).",
                 note="Trusted: rustc MIR, interpreter. 'Draws correctly after the fault cleared' is reduced to: state read by later calls is unchanged (here) plus the bus-cache rule of C07 and the state-only proofs of C01/C08. What a real controller does with a half-sent command is out of scope."),
     "C05": dict(level="proof", design="5/C05",
                 technique="bit-sliced abstract interpretation of each InterfacePixelFormat impl on a symbolic pixel; per-bit polynomial equality with the MIPI DBI encodings; sibling agreement of stream and fill paths",
                 text="For the three (colour, bus word) impls the words produced for a symbolic pixel - as canonical polynomials over the channel bits - equal the oracle encoding (RGB565 MSB first / one 16-bit word; RGB666 three left-aligned bytes) on both the per-pixel stream path and the solid-fill path, with count and words-per-pixel passed on unchanged: all 65 536 / 262 144 values at once. COLMOD per model is C11c-pixel-format.",
                 note="Trusted: rustc MIR, interpreter, embedded-graphics-core raw layout (cross-checked against the compiler-evaluated RED/GREEN/BLUE constants) and accessor semantics, MIPI DBI formats."),
     "C06": dict(level="other", design="5/C06",
-                technique="event-order (typestate) analysis of the SpiInterface bodies, required-flow rule on written slice lengths, loop-progress (ranking) rule under the property's stated precondition",
-                text="Decided: send_command's word DC low / [command] / DC high / args with error prefixes; pixel methods never touch DC and only write SPI; every written slice is the part staged in this round (never the whole buffer); every loop progresses - iterator loops consume a finite iterator, the repeat counter loop decreases by an amount entailed >= 1 (this found the zero-count hang). Not decided: that exactly count*N bytes are written and that chunk k carries pixel k.",
+                technique="event-order (typestate) analysis of the SpiInterface bodies, required-flow rule on written slice lengths, per-path conservation rule (pixels pulled vs bytes staged) over the loop's continue and exit paths, loop-progress (ranking) rule under the property's stated precondition",
+                text="Decided: send_command's word DC low / [command] / DC high / args with error prefixes; pixel methods never touch DC and only write SPI; every written slice is the part staged in this round (never the whole buffer); every loop progresses - iterator loops consume a finite iterator, the repeat counter loop decreases by an amount entailed >= 1 (this found the zero-count hang); conservation in send_pixels: on every path round the staging loop N x (pixels taken from the caller's stream) equals the bytes added to the staged length plus the bytes written, and no path leaves the loop for the write having taken a pixel it did not stage (core::iter::Zip::next is modelled exactly, so an adaptor that pulls from the stream before finding the buffer full is seen). Not decided: that exactly count*N bytes are written by send_repeated_pixel and that chunk k carries pixel k.",
                 note="Level 'other' because byte-exact delivery through the chunk arithmetic is not decided. Assumes the property's precondition len(buffer) >= N and a buffer shorter than 4 GiB. Found and fixed: count = 0 never terminated (commit d268bb6)."),
     "C07": dict(level="other", design="5/C07",
                 technique="DFA over interpreted event traces (loops as fixpoints) for the strobe protocol; per-pin polynomial equality for the bus cache invariant; Range trip-count and overflow obligations for the repeat fast path",
@@ -73,9 +73,9 @@ CHECKS = {
                 text="Every drawing entry point (8 orientations, both batch settings) emits only groups CASET RASET RAMWR pixels, error paths being prefixes; for the fill methods, set_pixel and every window group draw_iter emits (batched or not) start <= end and the end is inside the framebuffer; fill_solid's repeat count and fill_contiguous's take limit equal (ex-sx+1)*(ey-sy+1); every block the batched draw_iter flushes carries exactly (x_right-x_left+1)*(y_bottom-y_top+1) colours.",
                 note="Level 'other'. The accumulator invariants are derived for two orientations in the quick tier (they do not depend on it) and for all eight, plus the 16-bit-pointer build, in the thorough tier. Four big-endian bytes per address command: C18. That the colours inside a block are the right ones in the right order is C03 (not decided)."),
     "C20": dict(level="other", design="5/C20",
-                technique="event counting on interpreted traces (window set-ups per fill, loop depth of SPI writes), capacity constants read from heapless::Vec type arguments",
-                text="Exactly one CASET/RASET/RAMWR per successful fill_solid / fill_contiguous and none in a loop (clear is the default); with batch, draw_iter never falls back to single-pixel bursts and 2 <= row capacity <= block capacity; no SPI write sits in the per-pixel staging loop.",
-                note="Level 'other' (necessary conditions): that adjacent pixels are actually merged and the floor(b/usable)+1 transaction bound are not decided."),
+                technique="event counting on interpreted traces (window set-ups per fill, loop depth of SPI writes), capacity constants read from heapless::Vec type arguments, path-infeasibility rule on the row accumulator's next() under the stated in-bounds precondition",
+                text="Exactly one CASET/RASET/RAMWR per successful fill_solid / fill_contiguous and none in a loop (clear is the default); with batch, draw_iter never falls back to single-pixel bursts and 2 <= row capacity <= block capacity; the row accumulator hands a row on, while pixels keep coming, only on paths where 'the pixel just pulled is the right-hand neighbour on the same line and the row is not full' is infeasible (so a run is cut only at the capacity); no SPI write sits in the per-pixel staging loop.",
+                note="Level 'other' (necessary conditions): the floor(b/usable)+1 transaction bound and the merging of rows into blocks are not decided. The row rule names the accumulator's fields x_left / x_right / y (the property's own anchors) and fails closed if they are gone."),
 }
 
 NOT_APPLICABLE = {
